@@ -100,6 +100,10 @@ func (s *PrintCtx) set(e *Entry, lvl Level, timestamp time.Time, stackFrame uint
 	s.stackFrame = stackFrame
 	s.msg = msg
 	s.kvps = kvps
+
+	// a pooled context must not keep the colours of the record it formatted
+	// before: a level without (background) colour of its own would inherit them.
+	s.clr, s.bg = clrBasic, clrNone
 }
 
 //
